@@ -674,7 +674,11 @@ where
     let (es, _) = hashbrown::verif::table_layout::<(K, V)>();
     let ea = std::mem::align_of::<(K, V)>();
     let faulty = b["ops"].as_array().map_or(false, |a| a.iter().any(|o| o.get("pa").is_some()));
-    tr.reset("map", name, w, es, ea, std::mem::needs_drop::<(K, V)>(), K::TRACKED, nt, if faulty { "fault" } else { "lawful" }, seed);
+    let chaos = b.get("chaos").and_then(|x| x.as_u64()).unwrap_or(0) > 0;
+    if chaos {
+        env::setup_chaos(seed ^ 0xC4A05, vec![0, 0, 5, 15, 16, 31, 63, 65535], 3, true, false);
+    }
+    tr.reset("map", name, w, es, ea, std::mem::needs_drop::<(K, V)>(), K::TRACKED, nt, if chaos { "chaos" } else if faulty { "fault" } else { "lawful" }, seed);
     let mut drv: MapDrv<K, V> = MapDrv::new(nt, w);
     for t in 1..=nt {
         let mut ev = Event::new("new", t);
